@@ -3,6 +3,10 @@ CHECKS = {
   technique="property-based testing (Hypothesis): directional finite-difference oracle over generated molecules, density matrices and synthetic models",
   text="End-to-end through the real CiderNumInt/NLDFNumInt classes: generated small molecules x positive-semidefinite non-SCF density matrices x synthetic mapped functionals (all four semilocal modes, NLDF i/j/ij/k at GGA/MGGA level with both rho_mult, five SDMX classes, evaluator kinds, SEP/NPOL/POL, native and libxc baselines, MappedXC/MappedXC2, xmix/xc/xkernel/ckernel, Gaussian/spline plans, two interpolators). Oracle: two-step 4th-order finite difference of the returned energy along a drawn symmetric direction per spin channel vs Tr(vmat D); electron count vs an independent quadrature; hermiticity. Exploration, not proof.",
   note="Trusted: PySCF AO/rho evaluation and grids; libxc 7.0.0 from the PySCF wheel; FFTW not involved. FD resolves relative errors >= 2e-6 (1e-4 for NLDF, conditioning-limited). A change altering energy and potential consistently is invisible here (C02/C13)."),
+ "C07": dict(
+  technique="property-based testing (Hypothesis): differential (restricted vs unrestricted) and metamorphic (channel swap, spin scaling) relations",
+  text="Molecular level: nr_rks(dm) vs nr_uks((dm/2,dm/2)), nr_uks((a,b)) vs nr_uks((b,a)), and the separable identity E[(a,b)] = (E[2a]+E[2b])/2, on separately built calculators over generated molecules x PSD density matrices x synthetic models (semilocal, NLDF, SDMX; SEP/NPOL/POL; MappedXC/MappedXC2). Array level: SemilocalPlan nspin=1 vs 2, get_cider_exponent(_gga) spin scaling, and mapped models on generated per-point data (closed-shell equality, derivative symmetry and sum rule, channel swap incl. libxc baseline potentials, separability). Exploration.",
+  note="Tolerances: 1e-8 (1e-5 with NLDF: conditioning of the auxiliary Cholesky solve) at molecular level, 1e-9 at array level; regulariser-limited semilocal identities 1e-9/1e-6 (stated in evidence)."),
  "C12": dict(
   technique="property-based testing (Hypothesis): finite-difference and transpose oracles over generated maps/normalisers",
   text="Generated search over all 21 registered feature-map classes (enumerated from the registry), drawn indices incl. coincident ones, log-uniform parameters, four normaliser classes + factory functions and FeatNormalizerList in all four semilocal modes; each derivative routine is compared with a two-step 4th-order finite difference of its own value routine, additivity and the forward/reverse transpose identity are checked at 1e-12. Exploration: holds on every generated case, not a proof.",
